@@ -23,9 +23,13 @@ CLAIMED = {
                  "(g) get_all_det_pos_pairs_for_bin / get_num_det_pos_pairs_for_bin (3 nested loop contracts, ghost entry; parametric in view mashing, "
                  "TOF mashing and ring-pair count): the list has exactly the reported count, every entry written once inside the vector's size, entry "
                  "(i,j,l) = detector pair of uncompressed view i, j-th ring pair, l-th unmashed TOF index; even TOF mashing factors are reported as an "
-                 "error. Not decided: span/segment construction (ProjDataInfoCTI/GE), the float block of initialise_ring_diff_arrays (assumed contract "
-                 "ring1+ring2 = 2*ax/inc + offset), the ring_diff_to_segment_num fill loop (assumed), axial position inside a truncated axial range, "
-                 "Blocks/Generic classes."),
+                 "error; (h) ProjDataInfoCTI span/max_delta -> segments (statement kernel with the function's own guards, 4 loop contracts, per span, "
+                 "number of rings <= 128 and max_delta symbolic): illegal combinations are reported as errors, otherwise the segments' ring-difference "
+                 "intervals are non-empty, symmetric, contiguous, increasing (hence disjoint) and cover exactly [-max_delta, max_delta], with the "
+                 "documented numbers of axial positions; (i) the float block of initialise_ring_diff_arrays (three statement kernels composed, per "
+                 "ring spacing of the predefined scanners, num_rings <= 128, axial positions < 256): ring1+ring2 of an axial position equals "
+                 "2*ax/inc + ax_pos_num_offset exactly - the reader contract the ring-pair kernels use. Not decided: the ring_diff_to_segment_num "
+                 "fill loop (assumed reader contract), ProjDataInfoGE, axial position inside a truncated axial range, Blocks/Generic classes."),
         "note": ("trusted: cbmc 6.11.0 + kissat/MiniSat; lookup tables are projected onto one nondeterministic ghost cell; readers of a table see the "
                  "filler's postcondition; segments' ring-difference intervals disjoint and increasing with the segment number (established by the constructors, assumed); "
                  "per-segment values |.|<2^15; N, view mashing, TOF mashing factor and ring-pair count are swept as constants"),
